@@ -19,6 +19,7 @@ multi-tracer interference beyond the trace-id / validate gates.
 import re
 
 from .common import *
+from ..tables import cdec
 from ..tables import Atom, check_decision_table, check_pred_table as _pred_table
 from ..callgraph import CallGraph
 from ..writers import field_writers
@@ -57,11 +58,11 @@ def run(chk, tier):
     st = St()
     outs = eng0.run(frr, [eng0.sym_ref(st, 'self'), eng0.sym_ref(st, 'network'), eng0.sym_ref(st, 'st')], st)
     RECV = r'call:Network::recv_probe\(network\)'
-    RESP = r'field:0\(unwrap\(%s\)\)' % RECV
+    RESP = r'field:0\(field:0\(%s\)\)' % RECV
     SR = r'call:StrategyResponse::from\(\(%s, self\.config\)\)' % RESP
     atoms = [
         Atom('recv_ok', r'is_ok\(%s\)' % RECV),
-        Atom('some', r'discr\(unwrap\(%s\)\)' % RECV, truth={1: 1}),
+        Atom('some', r'discr\(field:0\(%s\)\)' % RECV, truth={1: 1}),
         Atom('validate', r'call:Strategy::validate\(self, call:Response::data\(%s\)\)' % RESP),
         Atom('trace_id', r'call:Strategy::check_trace_id\(self, field:trace_id\(%s\)\)' % SR),
         Atom('in_round', r'call:TracerState::in_round\(st, field:sequence\(%s\)\)' % SR),
@@ -240,15 +241,19 @@ def transitions(chk, prog):
                               (r'|1|resp\.is_target' if is_t == 1 else r'|self\.target_found')
         mr = d.get('discr(self.max_received_ttl)')
         exp['max_received_ttl'] = (r'Option::Some\(%s\)' % TTL) if mr == 0 else \
-            r'Option::Some\(TimeToLive\(Max\((self\.max_received_ttl#Some\.0, %s|%s, self\.max_received_ttl#Some\.0)\)\)\)' % (TTL, TTL)
+            r'Option::Some\(TimeToLive\(Max\((field:0\(self\.max_received_ttl\), %s|%s, field:0\(self\.max_received_ttl\))\)\)\)' % (TTL, TTL)
         tt = d.get('discr(self.target_ttl)')
-        TT = r'self\.target_ttl#Some\.0'
+        TT = r'field:0\(self\.target_ttl\)'
         lt = _cmp(d, 'Lt', TTL, TT)      # ttl < target_ttl ?
+        if tt is None:
+            tt_c = cdec(o).get('discr(self.target_ttl)')
+            tt = (0 if isinstance(tt_c, tuple) else tt_c)
         if is_t == 1:
             if tt == 0:
                 exp['target_ttl'] = r'Option::Some\(%s\)' % TTL
             elif lt is None:
-                exp['target_ttl'] = None
+                # the smaller of the two may also be taken with min(): the same function of (known, ttl)
+                exp['target_ttl'] = r'Option::Some\(TimeToLive\(Min\((%s(\.0)?, %s(\.0)?|%s(\.0)?, %s(\.0)?)\)\)\)' % (TT, TTL, TTL, TT)
             else:
                 exp['target_ttl'] = (r'Option::Some\(%s\)' % TTL) if lt else (r'Option::Some\(%s\)' % TT)
         else:
